@@ -67,16 +67,28 @@ def set_parents(tree):
 # ----------------------------------------------------------------------------
 
 class FuncInfo:
-    __slots__ = ('name', 'node', 'module', 'cls', 'origin', 'kind', 'decorators')
+    __slots__ = ('name', '_node', '_norm', 'module', 'cls', 'origin', 'kind', 'decorators')
 
     def __init__(self, name, node, module, cls=None, origin=None, kind='method'):
         self.name = name
-        self.node = node
+        self._node = node
+        self._norm = None
         self.module = module          # ModuleInfo
         self.cls = cls                # ClassInfo or None
         self.origin = origin          # synthetic origin for generated methods
         self.kind = kind              # method / getter / setter / function / static / class
         self.decorators = [src(d) for d in getattr(node, 'decorator_list', [])]
+
+    @property
+    def node(self):
+        """the function's syntax tree; in normal-form mode (Program.enable_normal_form) the equivalent tree with
+        helpers inlined, literal loops unrolled etc. (see normalize.py)"""
+        nz = self.module.prog._normalizer
+        if nz is None:
+            return self._node
+        if self._norm is None:
+            self._norm = nz.normalize(self)
+        return self._norm
 
     @property
     def qualname(self):
@@ -131,7 +143,8 @@ class ClassInfo:
 
 
 class ModuleInfo:
-    def __init__(self, rel, path, tree, source):
+    def __init__(self, rel, path, tree, source, prog=None):
+        self.prog = prog
         self.rel = rel
         self.path = path
         self.tree = tree
@@ -151,6 +164,8 @@ class Program:
         self.n_exec = 0
         self.n_generated = 0
         self.n_templates = 0
+        self._normalizer = None
+        self.absorbed = set()         # helpers whose every reference is an inlined call site (normal-form mode)
         self._load()
         self._link()
 
@@ -174,7 +189,7 @@ class Program:
                     except SyntaxError as e:
                         raise AnalysisError('cannot parse %s: %s' % (rel, e))
                 set_parents(tree)
-                m = ModuleInfo(rel, path, tree, source)
+                m = ModuleInfo(rel, path, tree, source, self)
                 self.modules[rel] = m
                 self._scan_module(m)
 
@@ -367,7 +382,7 @@ class Program:
             raise AnalysisError('anchor function %s in %s not found' % (name, rel))
         return f
 
-    def all_functions(self):
+    def _all_functions_raw(self):
         for m in self.modules.values():
             for f in m.functions.values():
                 yield f
@@ -377,6 +392,43 @@ class Program:
                     if f.cls is c and id(f) not in seen:
                         seen.add(id(f))
                         yield f
+
+    def all_functions(self):
+        for f in self._all_functions_raw():
+            if f.qualname in self.absorbed:
+                continue      # analysed in the context of each of its call sites
+            yield f
+
+    def enable_normal_form(self):
+        """switch every FuncInfo.node to its normal form (normalize.py); helpers that are only ever reached through
+        inlined call sites are dropped from all_functions(): they are analysed in the context of their callers"""
+        from . import normalize
+        self._normalizer = nz = normalize.Normalizer(self)
+        funcs = list(self._all_functions_raw())
+        for f in funcs:
+            f.node
+        refs = {}
+        seen = set()
+        roots = [m.tree for m in self.modules.values()] + [f._node for f in funcs if f.origin]
+        for root in roots:
+            for n in ast.walk(root):
+                if id(n) in seen:
+                    continue
+                seen.add(id(n))
+                if isinstance(n, ast.Name) and isinstance(n.ctx, ast.Load):
+                    refs[n.id] = refs.get(n.id, 0) + 1
+                elif isinstance(n, ast.Attribute):
+                    refs[n.attr] = refs.get(n.attr, 0) + 1
+        byq = {}
+        for f in funcs:
+            byq.setdefault(f.qualname, []).append(f)
+        for q, sites in nz.inlined.items():
+            fs = byq.get(q, [])
+            # only private helpers: a public function can be called from outside the package with any arguments
+            if len(fs) == 1 and fs[0].name.startswith('_') and not fs[0].name.endswith('__') \
+                    and refs.get(fs[0].name, 0) == len(sites):
+                self.absorbed.add(q)
+        return nz
 
     def subclasses(self, c):
         out = []
